@@ -168,6 +168,10 @@ def run(ctx, w):
     # a saved cursor outside the screen cannot be expressed by the dump (CUP clamps it): the re-layout must bound it on every path
     from rules import c17
     c17.clamp_rule(ctx, w, S, R)
+    # likewise a pending wrap away from the last column, or a scroll region DECSTBM would reject (top == bottom): no handler may produce them
+    shared.invariant_rule(ctx, w, S, R, "U12")
+    # ... nor a re-used alternate buffer (its content / geometry from the previous visit is state the dump never sees)
+    shared.mode_rule(ctx, w, S, R, "U13")
 
 
 # ---- U1 -------------------------------------------------------------------------------------
